@@ -113,6 +113,14 @@ def runSched (shape : Shape) (fetch : Fetch) (rq : List Req) : List Nat â†’ St â
   | [], s => s
   | r :: rs, s => runSched shape fetch rq rs ((step shape fetch rq s r).getD s)
 
+/-- the number of schedule entries at which the named request did move -/
+def countMoves (shape : Shape) (fetch : Fetch) (rq : List Req) : List Nat â†’ St â†’ Nat
+  | [], _ => 0
+  | r :: rs, s =>
+    match step shape fetch rq s r with
+    | some s' => countMoves shape fetch rq rs s' + 1
+    | none => countMoves shape fetch rq rs s
+
 /-- the request has returned -/
 def ReqSt.done (shape : Shape) (st : ReqSt) : Prop := st.pc = shape.length
 
